@@ -408,12 +408,35 @@ def rule_case_conversion(chk, prog, tier):
     r.exhaustive = False
 
 
+def rule_ancestor_stack(chk, prog, tier):
+    r = chk.rule('C15.g', 'the ancestor stack treeinsert() descends with has room for the tallest tree the keys allow: an AVL tree of n nodes is lower than 1.4405 log2(n + 2), the keys are 64-bit values, '
+                 'so at least 93 entries (or an explicit overflow test on the stack index) - fewer and a switch with a few thousand ascending labels writes past the array', floor=1, oracle='Adelson-Velsky & Landis height bound; C11 6.8.4.2 sets no limit on the number of case labels')
+    fn = prog.require_func('treeinsert', 'tree.c')
+    import re
+    arrays = []
+    for n in facts.walk(fn):
+        if n.get('kind') == 'VarDecl':
+            q = n.get('type', {}).get('desugaredQualType', n.get('type', {}).get('qualType', ''))
+            m = re.match(r'^.*\*\s*\[(\d+)\]$', q.strip())      # an array of pointers (to the links followed on the way down)
+            if m: arrays.append((n.get('name'), int(m.group(1)), n.get('line')))
+    if not arrays:
+        raise AnalysisBroken('treeinsert(): the array of ancestors was not found')
+    NEED = 94           # the root link plus ceil(1.4405 * log2(2^64 + 2)) = 93 levels
+    for name, size, line in arrays:
+        # an explicit bound test on the index would also do: a comparison of some variable with the array length that ends in error()/fatal()
+        guarded = any(c.get('kind') == 'BinaryOperator' and c.get('opcode') in ('<', '<=', '>', '>=', '==') and any(x.get('kind') == 'IntegerLiteral' and int(x.get('value', '-1')) in (size, size - 1) for x in facts.walk(c)) for c in facts.walk(fn))
+        r.instance(size >= NEED or guarded, 'ancestor-stack:%s[%d]' % (name, size), 'tree.c:%s' % (line or fn.get('line')),
+                   'the stack of ancestors has %d entries and no overflow test; a tree over 64-bit keys can be %d levels deep (e.g. 3000 ascending case labels reach level 12)' % (size, NEED))
+    r.exhaustive = True
+
+
 def run(chk, tier):
     prog = facts.programs()['cproc-qbe']
     chk.guard('C15.abc', lambda: rule_orders(chk, prog, tier))
     chk.guard('C15.d', lambda: rule_static_escape(chk, prog, tier))
     chk.guard('C15.e', lambda: rule_controlling(chk, prog, tier))
     chk.guard('C15.f', lambda: rule_case_conversion(chk, prog, tier))
+    chk.guard('C15.g', lambda: rule_ancestor_stack(chk, prog, tier))
     from props import c03
     chk.guard('C03.m', lambda: c03.rule_mnemonics(chk, prog, tier))       # the compare ladder and the promotion of the controlling expression reach the backend as text
     from props import c01
